@@ -50,7 +50,7 @@ STANDARD_NAMES = [
     "bright_black", "bright_red", "bright_green", "bright_yellow", "bright_blue", "bright_magenta", "bright_cyan", "bright_white",
 ]  # fmt: skip
 
-LINKS = [None, "https://example.org/a", "http://x/y%20z?q=1&r=%41", "foo"]
+LINKS = [None, "https://example.org/a", "http://x/y%20z?q=1&r=%41", "foo", "https://Example.org/Docs/README.md"]
 
 
 # ---------------------------------------------------------------------------------------------------------------
@@ -113,6 +113,25 @@ def color_meaning(spelling: Optional[str]):
 
     n = ANSI_COLOR_NAMES[s]
     return ("standard" if n < 16 else "eight_bit", n, None)
+
+
+def _color_object(spelling: Optional[str]):
+    """the colour a spelling names, made by the factory functions (Color.default / from_ansi / from_rgb / from_triplet)"""
+    from rich.color import ANSI_COLOR_NAMES, Color
+    from rich.color_triplet import ColorTriplet
+
+    if spelling is None:
+        return None
+    # Colour equality includes the display name, so only the factories that give the same name as the spelling are
+    # interchangeable with it: "default", "color(n)" and lower-case "#rrggbb"; other spellings go through Color.parse
+    kind, number, triplet = color_meaning(spelling)
+    if kind == "default":
+        return Color.default()
+    if spelling.startswith("color("):
+        return Color.from_ansi(number)
+    if spelling.startswith("#") and spelling == spelling.lower():
+        return Color.from_triplet(ColorTriplet(*triplet))
+    return Color.parse(spelling)
 
 
 def observe_color(c):
@@ -224,7 +243,7 @@ def algebra_pool(tier: str, seed: int) -> List[M]:
     for i in (0, 1, 2, 5, 9, 13, 14, 22, 26):
         pool.append(M(rows[i]))
     for i in (3, 4, 7, 11, 17, 20, 25):
-        pool.append(M(rows[i], SMALL_COLOURS[i % 12], SMALL_COLOURS[(i * 5 + 1) % 12], LINKS[i % 4]))
+        pool.append(M(rows[i], SMALL_COLOURS[i % 12], SMALL_COLOURS[(i * 5 + 1) % 12], LINKS[i % len(LINKS)]))
     for i in range(13):
         row = [None] * 13
         row[i] = (i % 2 == 0)
@@ -342,6 +361,10 @@ def check_style(m: M, res, rng: random.Random):
         from rich.color import Color
 
         routes["from_color"] = lambda: Style.from_color(None if m.color is None else Color.parse(m.color), None if m.bgcolor is None else Color.parse(m.bgcolor))
+    if m.color is not None or m.bgcolor is not None:
+        # the same colours as Color objects made by the documented factories instead of spellings
+        routes["color_objects"] = lambda: Style(color=_color_object(m.color), bgcolor=_color_object(m.bgcolor), link=m.link,
+                                                **{a: v for a, v in zip(ATTRS, m.attrs) if v is not None})
     if not kw:
         routes["null"] = lambda: Style.null()
         routes["parse_none"] = lambda: Style.parse("none")
